@@ -18,6 +18,7 @@ def handle (st : DState) (line : String) : String × DState :=
   | "genval" :: rest => (genvalRequest st rest, st)
   | "outputok" :: rest => (outputOkRequest rest, st)
   | "genover" :: rest => (genoverRequest st rest, st)
+  | "gendeep" :: rest => (gendeepRequest st rest, st)
   | _ => ("bad-op", st)
 
 partial def loop (h : IO.FS.Stream) (out : IO.FS.Stream) (st : DState) : IO Unit := do
